@@ -391,6 +391,15 @@ def judge19 (c : Case) : List String × Nat :=
       go rest (i + 1) errs (n + 1)
   go bs 0 [] 0
 
+/-- C16: a program of valid UTF-8 keys (without `^V`, which inserts raw bytes) on a valid file leaves valid text at every boundary -/
+def judge16 (c : Case) : List String × Nat :=
+  let validU8 (s : Bytes) : Bool := Spec.encStr (Spec.decodeStr s.length s) == s
+  if !(validU8 (c.file.getD []) && validU8 c.keys && !c.keys.contains 22) then ([], 0) else
+  let bs := c.impl.filter (fun r => r.mark == "B" || r.mark == "E")
+  match bs.find? (fun r => !validU8 r.bd.text) with
+  | some r => ([s!"clause=edits_keep_valid_utf8 kpos={r.bd.kpos} keys={bytesHex (c.keys.take r.bd.kpos)} text={bytesHex r.bd.text}"], bs.length)
+  | none => ([], bs.length)
+
 /-- the stream judge: model correspondence plus the property's reference judgement -/
 def judge (mode : Nat) (kv : KV) : Verdict :=
   let base := ViD.judge 0 kv
@@ -401,7 +410,7 @@ def judge (mode : Nat) (kv : KV) : Verdict :=
     match c.impl.getLast? with
     | some r => if r.mark == "Q" then [] else [s!"clause=reaches_the_quit_it_is_given end={r.mark} kpos={r.bd.kpos} of {c.keys.length}"]
     | none => ["clause=reaches_the_quit_it_is_given no result"]
-  let (errs, n, m) := if mode == 5 then (quitErr, 0, 0) else if mode == 7 then (let (e, n) := judge07 c; (e, n, 0)) else if mode == 13 then judge13 c else if mode == 19 then (let (e, n) := judge19 c; (e, n, 0)) else ([], 0, 0)
+  let (errs, n, m) := if mode == 5 then (quitErr, 0, 0) else if mode == 7 then (let (e, n) := judge07 c; (e, n, 0)) else if mode == 13 then judge13 c else if mode == 19 then (let (e, n) := judge19 c; (e, n, 0)) else if mode == 16 then (let (e, n) := judge16 c; (e, n, 0)) else ([], 0, 0)
   -- C19: the screen update routines against Model/Screen.lean (a model-vs-code difference, not a spec failure)
   let (opDiffs, opCalls) : List String × Nat :=
     if mode != 19 then ([], 0) else
